@@ -10,9 +10,10 @@ open Lean PonyVerif.Drive PonyVerif.Model.Tracked
 
 def kindOfStr : String → Except String Kind
   | "list" => pure .list | "dict" => pure .dict | "tup" => pure .tup | "iarr" => pure .iarr | "sarr" => pure .sarr
+  | "flist" => pure .flist | "fdict" => pure .fdict
   | s => throw s!"kind {s}"
 def strOfKind : Kind → String
-  | .list => "list" | .dict => "dict" | .tup => "tup" | .iarr => "iarr" | .sarr => "sarr"
+  | .list => "list" | .dict => "dict" | .tup => "tup" | .iarr => "iarr" | .sarr => "sarr" | .flist => "flist" | .fdict => "fdict"
 
 partial def tOfJson : Json → Except String T
   | .null => pure (.atom .null)
@@ -132,7 +133,7 @@ def tables : Json :=
     ("listDir", jPairs listDir), ("dictDir", jPairs dictDir),
     ("listMutators", jStrs (LM.all.map LM.pyName)), ("dictMutators", jStrs (DM.all.map DM.pyName)),
     ("listOv", jStrs (t.listOv.map LM.pyName)), ("dictOv", jStrs (t.dictOv.map DM.pyName)), ("arrOv", jStrs (t.arrOv.map LM.pyName)),
-    ("tupleMode", .str (match t.tupleMode with | .leave => "leave" | .items => "items" | .list => "list")), ("notifyOnError", .bool t.notifyOnError),
+    ("tupleMode", .str (match t.tupleMode with | .leave => "leave" | .items => "items" | .list => "list")), ("notifyOnError", .bool t.notifyOnError), ("rebinds", .bool t.rebinds), ("assignRebinds", .bool t.assignRebinds),
     ("iterUnwrapped", jPairs (t.iterUnwrapped.map fun p => (imName p.1, ikName p.2))),
     ("listNotify", jStrs (PonyVerif.Gen.TrackedTable.listNotify.map LM.pyName)),
     ("dictNotify", jStrs (PonyVerif.Gen.TrackedTable.dictNotify.map DM.pyName)),
